@@ -205,6 +205,16 @@ def run_wait_case(case, acc):
                         viols.append(("later_wait_differs", ctx + f" first {r[1]!r} later {r2!r}"))
                 if len(w.polls) != n0:
                     viols.append(("later_wait_polled_again", ctx))
+                # argument rules do not depend on what an earlier call left behind
+                for bad in (-1, -0.001, float("-inf")):
+                    acc.count("negative_timeouts_after_cached_result")
+                    try:
+                        rb = p.wait(bad)
+                        viols.append(("negative_timeout_accepted:after_cached_result", ctx + f" wait({bad}) -> {rb!r}"))
+                    except ValueError:
+                        pass
+                    except Exception as e:  # noqa: BLE001
+                        viols.append((f"negative_timeout_wrong_exception:{type(e).__name__}", ctx + f" wait({bad})"))
         else:
             acc.count("timeouts_checked")
             e = r[1]
@@ -414,6 +424,7 @@ def run_live(acc, tier):
     try:
         _run_live(acc, tier, ps)
         run_live_popen(acc, ps)
+        run_live_blocked_wait(acc, ps)
     finally:
         ps.PROCFS_PATH = "/vproc"
 
@@ -453,6 +464,97 @@ def _run_live(acc, tier, ps):
             except Exception:  # noqa: BLE001
                 pass
         acc.case(dict(live=kind, value=int(v)), True, viols)
+
+
+class _WatchedLock:
+    def __init__(self, real):
+        self._real = real
+        self.waiting = False
+
+    def acquire(self, *a, **k):
+        if self._real.acquire(False):
+            return True
+        self.waiting = True
+        try:
+            return self._real.acquire(*a, **k)
+        finally:
+            self.waiting = False
+
+    def release(self):
+        return self._real.release()
+
+    def __enter__(self):
+        self.acquire()
+        return self
+
+    def __exit__(self, *a):
+        self.release()
+
+
+def run_live_blocked_wait(acc, ps):
+    """A deadline cannot be honoured by a call that queues up behind another thread: while thread A sits in a oneshot()
+    block (or in a blocking wait()) of the same object, thread B's wait(0) / wait(0.05) must come back with TimeoutExpired -
+    B being *seen waiting for the object's lock* is the violation (no wall-clock verdict)."""
+    import threading
+    import time
+    envp = {k: v for k, v in os.environ.items() if k != "LD_PRELOAD"}
+    for holder in ("oneshot", "blocking_wait"):
+        for tmo in (0, 0.05):
+            sp = subprocess.Popen([sys.executable, "-S", "-c", "import time; time.sleep(600)"], env=envp)
+            viols = []
+            try:
+                p = ps.Process(sp.pid)
+                lock = _WatchedLock(p._lock)
+                p._lock = lock
+                inside, leave = threading.Event(), threading.Event()
+                out = {}
+
+                def a():
+                    if holder == "oneshot":
+                        with p.oneshot():
+                            p.name()
+                            inside.set()
+                            leave.wait(60)
+                    else:
+                        inside.set()
+                        try:
+                            p.wait(60)
+                        except Exception:  # noqa: BLE001
+                            pass
+
+                def b():
+                    try:
+                        out["res"] = ("ok", p.wait(tmo))
+                    except ps.TimeoutExpired:
+                        out["res"] = ("TimeoutExpired", None)
+                    except Exception as e:  # noqa: BLE001
+                        out["res"] = (type(e).__name__, None)
+                ta, tb = threading.Thread(target=a, daemon=True), threading.Thread(target=b, daemon=True)
+                ta.start()
+                inside.wait(30)
+                time.sleep(0.05)
+                tb.start()
+                while tb.is_alive() and not lock.waiting:
+                    time.sleep(0.0005)
+                blocked = tb.is_alive() and lock.waiting
+                acc.count("timeouts_checked")
+                acc.count("live_waits_next_to_a_lock_holder")
+                if blocked:
+                    viols.append(("wait_queued_behind_another_thread:deadline_cannot_be_honoured",
+                                  f"wait({tmo}) of a live process waits for the object's lock while another thread is in {holder}"))
+                leave.set()
+                os.kill(sp.pid, 9)
+                tb.join(30)
+                ta.join(30)
+                if not blocked and out.get("res", ("?",))[0] != "TimeoutExpired":
+                    viols.append(("live_wait_on_live_process_no_timeout", f"wait({tmo}) next to {holder}: {out.get('res')}"))
+            finally:
+                try:
+                    sp.kill()
+                except OSError:
+                    pass
+                sp.wait()
+            acc.case(dict(live="blocked_wait", holder=holder, timeout=tmo), True, viols)
 
 
 def run_live_popen(acc, ps):
